@@ -299,6 +299,10 @@ pub struct Cl {
     pub in_ev_high: bool,
     pub in_ev_zero: bool,
     pub in_mut_zero: bool,
+    /// ticks (relative) of mutate messages with a raw tick >= 2^31 handed to the client since its last frame
+    pub in_high_ticks: Vec<u32>,
+    /// ticks whose confirmation met a tracker that was still at its initial tick 0 (sticky per session)
+    pub f21_ignored_ticks: BTreeSet<u32>,
     /// raw (library) value of the last update tick the client reported / was handed
     pub last_update_raw: u32,
     pub last_upd_delivered_raw: u32,
@@ -500,6 +504,8 @@ impl Sim {
                     in_ev_high: false,
                     in_ev_zero: false,
                     in_mut_zero: false,
+                    in_high_ticks: vec![],
+                    f21_ignored_ticks: default(),
                     last_update_raw: 0,
                     last_upd_delivered_raw: 0,
                     mt_last_before: 0,
@@ -653,7 +659,7 @@ impl Sim {
         let ci: usize = digits.parse().ok()?;
         let c = self.clients.get(ci)?;
         let has = |xs: &[&str]| props.iter().any(|p| xs.contains(p));
-        if c.f22 && has(&["C01", "C02", "C03", "C04", "C10", "C11", "C12", "C16"]) {
+        if c.f22 && has(&["C01", "C02", "C03", "C04", "C05", "C07", "C08", "C10", "C11", "C12", "C16"]) {
             return Some("owned-entity-detached-in-owners-despawn-tick");
         }
         if c.f21_mut && has(&["C01", "C02", "C10", "C11", "C12"]) {
@@ -669,7 +675,8 @@ impl Sim {
                 .and_then(|at| msg[at + 5..].split(|ch: char| !ch.is_ascii_digit()).next().and_then(|d| d.parse::<u32>().ok()))
                 .map(wire::raw)
                 .unwrap_or_else(|| self.server.world().resource::<ServerTick>().get());
-            if about >= HALF && c.mt_last_before == 0 {
+            let about_rel = wire::rel(about);
+            if about >= HALF && (c.mt_last_before == 0 || c.f21_ignored_ticks.contains(&about_rel)) {
                 return Some("mutate-ticks-ignored-at-upper-half-tick");
             }
         }
@@ -719,6 +726,8 @@ impl Sim {
         c.in_ev_high = false;
         c.in_ev_zero = false;
         c.in_mut_zero = false;
+        c.in_high_ticks.clear();
+        c.f21_ignored_ticks.clear();
         c.joined_late = false;
         c.delivered_reqs.clear();
         c.delivered_idx_reqs.clear();
@@ -1052,6 +1061,14 @@ impl Sim {
                 .world()
                 .get_resource::<bevy_replicon::client::server_mutate_ticks::ServerMutateTicks>()
                 .map_or(0, |t| t.last_tick().get());
+            // F21(c): a confirmation for a tick >= 2^31 that meets a tracker still at its initial tick 0 is
+            // ignored; the tick can then never be reported, however late its other messages arrive
+            if c.mt_last_before == 0 {
+                let ticks = std::mem::take(&mut c.in_high_ticks);
+                c.f21_ignored_ticks.extend(ticks);
+            } else {
+                c.in_high_ticks.clear();
+            }
             c.in_mut_high = false;
             c.in_ev_high = false;
             c.in_ev_zero = false;
@@ -1141,6 +1158,9 @@ impl Sim {
                 self.clients[ci].delivered_idx_reqs.entry(mm.index).or_default().push(mm.update_tick);
                 if mm.raw_update_tick >= HALF {
                     self.clients[ci].in_mut_high = true;
+                }
+                if mm.raw_tick >= HALF {
+                    self.clients[ci].in_high_ticks.push(mm.tick);
                 }
                 if mm.raw_update_tick == 0 {
                     self.clients[ci].in_mut_zero = true;
